@@ -507,26 +507,51 @@ Proof.
   destruct r as [[s us|v|]|]; try discriminate; eapply mk_timestamp_wf; exact H.
 Qed.
 
-Theorem offset_verbatim : forall t ob x,
-  from_dict (TRDictNew t (Some ob)) = Ok x ->
+Theorem offset_verbatim : forall t ob offset neg x,
+  from_dict (TRDict t (Some (Some ob)) offset neg) = Ok x ->
   offset_bytes x = ob /\ timestamp_of_repr t = Ok (ts x) /\
   author_date_part x = [SP] ++ format_date (ts x) ++ [SP] ++ ob.
 Proof.
-  intros t ob x H. cbn [from_dict] in H.
+  intros t ob offset neg x H. cbn [from_dict] in H.
   destruct (timestamp_of_repr t) as [t'|e]; cbn [bind] in H; [|discriminate].
   inversion H. cbn [offset_bytes ts]. unfold author_date_part. cbn [offset_bytes ts].
   repeat split; reflexivity.
 Qed.
 
+(* a dict that carries BOTH the recorded bytes and the legacy numeric form: the bytes win - the outcome does not
+   depend on "offset" / "negative_utc" at all, succeeds whenever the timestamp is acceptable, and the bytes are kept
+   even when they are not the +HHMM spelling of that number; the numeric form is used only when no bytes are recorded *)
+Theorem recorded_bytes_win :
+  (forall t ob offset neg,
+     from_dict (TRDict t (Some (Some ob)) offset neg) = from_dict (TRDict t (Some (Some ob)) None None)) /\
+  (forall t ob offset neg t', timestamp_of_repr t = Ok t' ->
+     from_dict (TRDict t (Some (Some ob)) offset neg) = Ok (mkTstz t' ob)) /\
+  (forall t ob off neg x y,
+     from_dict (TRDict t (Some (Some ob)) (Some (Some off)) neg) = Ok x ->
+     from_dict (TRDict t None (Some (Some off)) neg) = Ok y ->
+     offset_bytes x = ob /\ offset_bytes y = offset_to_bytes off (match neg with Some b => b | None => false end) /\
+     ts x = ts y) /\
+  (forall t off neg,
+     from_dict (TRDict t None (Some (Some off)) neg) =
+     bind (timestamp_of_repr t) (fun t' => from_numeric_offset t' off (match neg with Some b => b | None => false end))).
+Proof.
+  split; [reflexivity|]. split.
+  { intros t ob offset neg t' E. cbn [from_dict]. rewrite E. reflexivity. }
+  split; [|reflexivity].
+  intros t ob off neg x y Hx Hy. cbn [from_dict] in Hx, Hy.
+  destruct (timestamp_of_repr t) as [t'|e]; cbn [bind] in Hx, Hy; [|discriminate].
+  inversion Hx. rewrite (from_numeric_offset_bytes _ _ _ _ Hy). cbn [offset_bytes ts]. repeat split; reflexivity.
+Qed.
+
 (* every entry point only ever yields in-range timestamps *)
 Theorem from_dict_wf : forall r x, from_dict r = Ok x -> ts_wf (ts x).
 Proof.
-  intros r x H. destruct r as [t ob|t off neg|d| |v|]; cbn [from_dict] in H; try discriminate.
+  intros r x H. destruct r as [t ob off neg|d| |v|]; cbn [from_dict] in H; try discriminate.
   - destruct (timestamp_of_repr t) as [t'|e] eqn:E; cbn [bind] in H; [|discriminate].
-    destruct ob; [|discriminate]. inversion H. cbn [ts]. eapply timestamp_of_repr_wf; exact E.
-  - destruct (timestamp_of_repr t) as [t'|e] eqn:E; cbn [bind] in H; [|discriminate].
-    destruct off as [off|]; [|discriminate].
-    rewrite (from_numeric_offset_bytes _ _ _ _ H). cbn [ts]. eapply timestamp_of_repr_wf; exact E.
+    destruct ob as [[b|]|]; try discriminate.
+    + inversion H. cbn [ts]. eapply timestamp_of_repr_wf; exact E.
+    + destruct off as [[off|]|]; try discriminate.
+      rewrite (from_numeric_offset_bytes _ _ _ _ H). cbn [ts]. eapply timestamp_of_repr_wf; exact E.
   - unfold from_datetime in H.
     destruct (astimezone_utc d) as [u|e]; cbn [bind] in H; [|discriminate].
     destruct (if dt_microsecond u =? 0 then Ok u else replace_microsecond u 0) as [u'|e]; cbn [bind] in H; [|discriminate].
